@@ -95,6 +95,31 @@ CHECKS.update({
             "DESIGN.md §3 C02"),
 })
 
+CHECKS.update({
+    "C10": ("exploration",
+            "reference-model oracle: the documented flattening rule evaluated on the spec vs the ports of the exported module, plus "
+            "the C01 partition oracle on both sides of every bundle connection",
+            "Seeded bundle definition trees (depth <= 3, fan-out <= 3) with every leaf kind, width, flip placement (constructor flag "
+            "and flipped()), role assignment and connection form; exported port (name, width, direction) compared with the rule; "
+            "internal instances must yield signals, not ports; coverage matrix reported.",
+            "role of the innermost holding instance decides role-carrying leaves; port order not constrained",
+            "DESIGN.md §3 C10"),
+    "C19": ("exploration",
+            "reference-model oracle: the chain / pass-through of the statement written as a reference design (R1) vs R2 of the exported "
+            "Series / MosStack / Wrapper module, unit indices preserved",
+            "All n in 1..N x unit cells (primitives, external modules incl. permuted d/g/s/b order and a port named i, modules with bus "
+            "and bundle ports) x every ordered equal-width port pair by name and by Signal; enumerated completely.",
+            "equal-width series pairs only; a bundle port as series port must be rejected",
+            "DESIGN.md §3 C19"),
+    "C16": ("exploration",
+            "differential oracle through one independent reader: leaf-level partition of to_proto(m) vs to_proto(flatten(m)), leaves "
+            "matched by unique tag",
+            "Seeded hierarchies (depth <= 5, shared sub-modules, buses, pass-through ports, external and primitive leaves at every depth, "
+            "zero-port cells, ':'-colliding names); flat module must hold only leaves, one per device, same ports, same partition.",
+            "must-flatten domain = whole-signal connections; slice/concat designs may be rejected",
+            "DESIGN.md §3 C16"),
+})
+
 NOT_APPLICABLE = {}
 
 
